@@ -127,6 +127,8 @@ def o_aggregate(ctx, case):
         hit = hit or acc is None
     if hit:
         ctx.label("aggregate:prefix_sums_to_identity")
+    if len(pts) == 1 or (len(pts) > 1 and all(p is None for p in pts[1:])):
+        ctx.label("aggregate:single_point_reencoded")
     ctx.sample(case, "aggregate")
 
 
@@ -154,11 +156,18 @@ def s_aggregate():
             elif kind == 5 and len(sigs) >= 2:
                 acc = blssig.aggregate_points([B.signature_point(x) for x in sigs])
                 sigs.append(B.signature_bytes(B.g2_mul(acc, -1)))          # minus the running sum
+            elif kind == 6:
+                # an on-curve point whose y is purely real or purely imaginary (sign taken from y_re)
+                zc, c = None, 1 + a
+                while zc is None:
+                    zc, c = bc.g2_zero_component(c), c + 1
+                pt = zc[0] if b % 2 else B.g2_mul(zc[0], -1)
+                sigs.append(B.signature_bytes(pt))
             else:
                 sigs.append(B.signature_bytes(bc.seed_point("G2", a % 40) if kind == 1
                                               else bc.torsion_point("G2", a % 40)))
         return {"suite": suite, "sigs": [hx(s) for s in sigs]}
-    entry = st.tuples(st.sampled_from([0, 0, 0, 0, 1, 2, 3, 4, 4, 5]), st.integers(1, 12), st.integers(0, 6))
+    entry = st.tuples(st.sampled_from([0, 0, 0, 0, 1, 2, 3, 4, 4, 5, 6]), st.integers(1, 12), st.integers(0, 6))
     return st.tuples(sc.s_suite(), st.lists(entry, min_size=1, max_size=6)).map(build)
 
 
@@ -198,6 +207,11 @@ def t_aggregate(ctx, shard, nshards, n):
     for j, agg in sorted(vectors.ETH_AGGS.items()):
         ex.append({"suite": "pop", "sigs": [hx(vectors.ETH_SIGS[(i, j)]) for i in range(3)], "expect": hx(agg)})
     ex.append({"suite": "basic", "sigs": [hx(B.signature_bytes(None))]})
+    for c in (1, 2, 3, 5, 8):
+        zc = bc.g2_zero_component(c)
+        if zc is not None:
+            for pt in (zc[0], B.g2_mul(zc[0], -1)):
+                ex.append({"suite": "aug", "sigs": [hx(B.signature_bytes(pt))]})
     ex.append({"suite": "basic", "sigs": [hx(B.signature_bytes(B.G2)), hx(B.signature_bytes(B.g2_mul(B.G2, -1)))]})
     drive(ctx, f"agg{shard}", s_aggregate(), lambda c: o_aggregate(ctx, c), n, ex[shard::nshards], shrink=False)
 
